@@ -95,6 +95,13 @@ def state_fxp(F, signed, n_word, n_frac, codes, shape=None, **kw):
     return x
 
 
+def value_of(F, code, n_frac):
+    """the plain Python float code * 2^-n_frac (a symbolic dyadic float on the lifted side)"""
+    if F.symbolic and T.is_sym(code):
+        return T.mkf(code, -n_frac)
+    return float(code) * 2.0 ** (-n_frac)
+
+
 def cint(v):
     """sizes computed from symbolic data (e.g. the word grown by an expanding shift) are concrete on every path: pin them"""
     if isinstance(v, T.SInt):
